@@ -126,7 +126,26 @@ pub fn read_dict(bytes: &[u8]) -> Result<Result<Dictionary, String>, String> {
 }
 
 pub fn make_tokenizer(d: Dictionary, opts: Opts) -> Result<Tokenizer, String> {
-    match guarded(move || Tokenizer::new(d).ignore_space(opts.ignore_space).map(|t| t.max_grouping_len(opts.mgl))) {
+    make_tokenizer_hist(d, opts, false)
+}
+
+/// The options are setters: the last call decides. Half of the time (decided by the options themselves, so that
+/// every run of the same case does the same) the opposite values are set first. `ignore_space(true)` as a
+/// first call is only made when the caller knows that SPACE is defined (it is an error otherwise, by contract).
+pub fn make_tokenizer_hist(d: Dictionary, opts: Opts, space_defined: bool) -> Result<Tokenizer, String> {
+    let history = (opts.mgl + opts.ignore_space as usize) % 2 == 1;
+    match guarded(move || {
+        let mut t = Tokenizer::new(d);
+        if history {
+            t = t.max_grouping_len(if opts.mgl == 0 { 3 } else { 0 });
+            if opts.ignore_space {
+                t = t.ignore_space(false).map_err(|e| e.to_string())?;
+            } else if space_defined {
+                t = t.ignore_space(true).map_err(|e| e.to_string())?;
+            }
+        }
+        t.ignore_space(opts.ignore_space).map(|t| t.max_grouping_len(opts.mgl)).map_err(|e| e.to_string())
+    }) {
         Ok(Ok(t)) => Ok(t),
         Ok(Err(e)) => Err(format!("ignore_space error: {e}")),
         Err(p) => Err(format!("panic: {p}")),
